@@ -65,7 +65,7 @@ def run_semdrv(ctx, profile, seed, n, extra="", timeout=6000):
 
 def catalogue(ctx, kfs, report_unlisted=True):
     """Run the construct catalogue. Returns (unlisted mismatching cases, stats, verdict table)."""
-    cmd, cases, st = run_semdrv(ctx, "catalogue", ctx.seed, 0)
+    cmd, cases, st = run_semdrv(ctx, "catalogue", ctx.seed, 0, extra="-skip order_")   # the order_ items belong to C04
     known = {k["item"]: k for k in kfs if k.get("class") == "catalogue"}
     bad = []
     table = {}
